@@ -35,6 +35,7 @@ TRUSTED = [
 ]
 MIN = dt.datetime.min
 US = dt.timedelta(microseconds=1)
+DT_LAST = (dt.datetime.max - MIN) // US          # datetime.max in microseconds since datetime.min
 FIELDS = ["year", "year2", "month", "day", "doy", "hour", "minute", "second",
           "decisecond", "centisecond", "millisecond", "microsecond"]
 CTOR = {"year": "FYear", "year2": "FYear2", "month": "FMonth", "day": "FDay", "doy": "FDoy", "hour": "FHour",
@@ -436,7 +437,7 @@ def gen_case(rng, k, stream):
         hs = us_of(gen_time(rng, False))
         style = rng.random()
         if style < 0.35:
-            cfg["h_start"], cfg["h_end"] = hs, hs + rng.randrange(0, 10**10)
+            cfg["h_start"], cfg["h_end"] = hs, min(hs + rng.randrange(0, 10**10), DT_LAST)
         elif style < 0.55:
             cfg["h_end"] = hs
         elif style < 0.7:
@@ -630,8 +631,9 @@ def make_fileset(case):
     path_tokens = [t for t in tokens if not (t[0] == "u" and case["user"].get(t[1], 0) is None)]
     kw = {}
     if cfg["via"] != "filename":
-        hs = None if cfg["h_start"] is None else of_us(cfg["h_start"])
-        he = None if cfg["h_end"] is None else of_us(cfg["h_end"])
+        # (clamped: the harness's own conversions never leave datetime's range)
+        hs = None if cfg["h_start"] is None else of_us(min(max(cfg["h_start"], 0), DT_LAST))
+        he = None if cfg["h_end"] is None else of_us(min(max(cfg["h_end"], 0), DT_LAST))
         attrs = dict(cfg["h_attr"])
 
         def info(file_info):
@@ -644,19 +646,21 @@ def make_fileset(case):
         # history: the same configuration reached step by step on one object -- build with the default regexes, use the
         # object once (parse / get_info of a name, whatever comes out), then narrow the user placeholders with
         # set_placeholders(); from here on it must behave exactly like the object configured through the constructor
-        fs = FileSet(template_string(merge_lits(path_tokens)), **kw)
+        # (names other than the one under test: get_info keeps a path-keyed cache, which is C15's business; the
+        # warm-up names are the harness's own arithmetic: computed first, in range by construction, never reported)
+        warm = []
         try:
-            # (names other than the one under test: get_info keeps a path-keyed cache, which is C15's business)
             toks = [tuple(t) for t in case["tokens"]]
-            day = dt.timedelta(days=1)
-            warm = [own_render(toks, of_us(case["s"]), of_us(case["e"]), case["fill"])[0] + ".warm"]
-            if of_us(case["e"]) < dt.datetime.max - 2 * day:
-                warm.append(own_render(toks, of_us(case["s"]) + day, of_us(case["e"]) + day, case["fill"])[0])
-            for w in warm:
-                guard(lambda: dict(fs.parse_filename(w)))
-                guard(lambda: info_obs(fs, w))
+            day = 86400 * 10**6
+            warm.append(own_render(toks, of_us(case["s"]), of_us(case["e"]), case["fill"])[0] + ".warm")
+            if max(case["s"], case["e"]) + day <= DT_LAST:
+                warm.append(own_render(toks, of_us(case["s"] + day), of_us(case["e"] + day), case["fill"])[0])
         except Exception:  # noqa
             pass
+        fs = FileSet(template_string(merge_lits(path_tokens)), **kw)
+        for w in warm:
+            guard(lambda: dict(fs.parse_filename(w)))
+            guard(lambda: info_obs(fs, w))
         fs.set_placeholders(**placeholder)
         return fs
     fs = FileSet(template_string(merge_lits(path_tokens)), placeholder=placeholder or None, **kw)
@@ -860,6 +864,27 @@ def partial_exact(case):
     return 0 <= case["e"] - case["s"] < UNIT[c]
 
 
+def eval_robust(ctx, exprs):
+    """core.coq_eval with one retry: coqc stops at the first term it cannot evaluate and a shard can die under load
+    (timeout, kill), which would leave every later term of that shard unevaluated.  Terms without a value are
+    evaluated once more in small shards, then -- if few are left -- one by one, so that only a term Coq really
+    rejects is reported."""
+    vals, log = core.coq_eval(ctx.work / "cases", "c02", PREAMBLE, exprs, shard=200, timeout=900)
+    logs = [log] if log else []
+    for rnd, (shard, limit) in enumerate([(25, None), (1, 400)]):
+        miss = [i for i, x in enumerate(vals) if x is None]
+        if not miss or (limit is not None and len(miss) > limit):
+            break
+        ctx.log(f"{len(miss)} of {len(exprs)} terms came back without a value; evaluating them again (shards of {shard})")
+        again, log = core.coq_eval(ctx.work / "cases", f"c02_retry{rnd}", PREAMBLE, [exprs[i] for i in miss], shard=shard,
+                                   timeout=600)
+        if log:
+            logs.append(log)
+        for i, x in zip(miss, again):
+            vals[i] = x
+    return vals, "\n".join(logs)
+
+
 def check_cases(ctx, cases):
     obs_all = [run_impl(c) for c in cases]
     exprs, index = [], []
@@ -871,7 +896,7 @@ def check_cases(ctx, cases):
         o["_inst"] = instance_exprs(c, o)
         index.append((len(exprs), len(ex)))
         exprs += ex + [x[3] for x in o["_inst"] if x[3] is not None]
-    vals, log = core.coq_eval(ctx.work / "cases", "c02", PREAMBLE, exprs, shard=400)
+    vals, log = eval_robust(ctx, exprs)
     if log:
         ctx.log(log[-2000:])
     nontrivial, stats = set(), {}
@@ -1015,8 +1040,8 @@ def check_tables(ctx):
 def run(ctx):
     ctx.prove("Props/C02.v")
     check_tables(ctx)
-    n_law = ctx.n(330, 6500)
-    n_tw = ctx.n(170, 2500)
+    n_law = ctx.n(330, 3200)        # (thorough: ~34 000 Coq evaluations, 4-5 min on an idle 16-core machine)
+    n_tw = ctx.n(170, 1300)
     cases = []
     for k in range(n_law + n_tw):
         c = gen_case(ctx.rng, k, "law" if k < n_law else "twist")
